@@ -11,6 +11,8 @@ import (
 	"bytes"
 	"encoding/hex"
 	"fmt"
+	"runtime"
+	"runtime/debug"
 	"testing"
 
 	"github.com/libsv/go-bt/v2"
@@ -435,6 +437,16 @@ func applyLib(op HOp, tx *bt.Tx, before ref.Tx) {
 	}
 }
 
+// lowMemory switches the collector to its default pace (pbt.Main runs the shards
+// at 400 %) and returns the function that restores the pace and frees the garbage.
+func lowMemory() func() {
+	old := debug.SetGCPercent(100)
+	return func() {
+		debug.SetGCPercent(old)
+		runtime.GC()
+	}
+}
+
 type retainedBytes struct {
 	what      string
 	got, want []byte
@@ -508,6 +520,15 @@ func checkHistory(ctx *pbt.Ctx, c History) error {
 				ctx.Discard("ambiguous shape (no inputs, no outputs, locktime 0xEF000000)")
 				return nil
 			}
+		}
+	}
+
+	// cases with tens of thousands of elements: collect garbage eagerly so that the
+	// shard's heap (and with it the address space under the driver's ulimit) stays small
+	for _, op := range c.Ops {
+		if (op.Kind == "rep-in" || op.Kind == "rep-out") && op.N > 10000 {
+			defer lowMemory()()
+			break
 		}
 	}
 
@@ -601,7 +622,7 @@ func checkHistory(ctx *pbt.Ctx, c History) error {
 					got[i] = 0xa5
 				}
 				ctx.Label("scribbled-result")
-			} else {
+			} else if len(got) < 1<<18 || len(keptB) < 8 { // at most 8 retained buffers of a 65536-element transaction
 				keptB = append(keptB, retainedBytes{what, got, want})
 			}
 		}
@@ -736,6 +757,24 @@ var plainKinds = []string{
 	"swap-in", "swap-out", "clone", "clone", "clone", "readfrom", "readfrom", "none",
 }
 
+// shorten keeps the scripts of elements that are about to be replicated 65536
+// times short (the encoding stays below 4 MB).
+func shorten(m *ref.Tx) {
+	for i := range m.In {
+		if len(m.In[i].Unlock) > 4 {
+			m.In[i].Unlock = m.In[i].Unlock[:4]
+		}
+		if len(m.In[i].PrevScript) > 4 {
+			m.In[i].PrevScript = m.In[i].PrevScript[:4]
+		}
+	}
+	for i := range m.Out {
+		if len(m.Out[i].Script) > 4 {
+			m.Out[i].Script = m.Out[i].Script[:4]
+		}
+	}
+}
+
 func genHistory(t *rapid.T) History {
 	m := gen.Tx(t, histOpts())
 	nilify(t, &m)
@@ -772,10 +811,12 @@ func genHistory(t *rapid.T) History {
 		c.Ops = append(c.Ops, HOp{Kind: "rep-in", N: near(253), Q: qs()}, HOp{Kind: "rep-out", N: near(253), Q: qs()})
 		side = []string{"add-in", "del-in", "add-out", "del-out", "ins-in", "ins-out"}
 	case "in65536":
+		shorten(&c.Tx)
 		c.Ops = append(c.Ops, HOp{Kind: "rep-in", N: near(65536), Q: qs()})
 		side = []string{"add-in", "ins-in", "del-in", "add-in", "del-in"}
 		n = rapid.IntRange(2, 4).Draw(t, "n_ops_big")
 	case "out65536":
+		shorten(&c.Tx)
 		c.Ops = append(c.Ops, HOp{Kind: "rep-out", N: near(65536), Q: qs()})
 		side = []string{"add-out", "ins-out", "del-out", "add-out", "del-out"}
 		n = rapid.IntRange(2, 4).Draw(t, "n_ops_big")
